@@ -389,3 +389,24 @@ func H_C06_eye() {
 	checkTensor("Eye", e, []int{n, n}, want)
 	vrt.Reach("done")
 }
+
+// H_C06_nelems: NElems is the product of Shape for the result of every kind of operation (a result
+// carries its own element count, whatever produced it).
+func H_C06_nelems() {
+	op := vrt.SParam("op")
+	n := c08Arity(op)
+	xs := make([]T, n)
+	for i := range xs {
+		xs[i], _ = mk(vrt.Nm("x", i), []int{2, 2}, vrt.Bool(vrt.Nm("tr", i)))
+	}
+	y, err := c08Apply(op, xs)
+	if err != nil || y == nil {
+		vrt.Assert("operation accepted", false)
+		return
+	}
+	d := vrt.Dims(y)
+	vrt.Assert(op+": Shape() is the result's shape", sameDims(y.Shape(), d))
+	vrt.Assert(op+": NElems is the product of Shape", y.NElems() == numel(d))
+	vrt.Assert(op+": the data holds exactly NElems elements", len(vrt.Flat(y)) == numel(d))
+	vrt.Reach("done")
+}
